@@ -119,13 +119,15 @@ def parse_t(s):
 # simulation context: contract clock, wall-clock tripwire, global PRNGs
 # --------------------------------------------------------------------------
 TRIPWIRE_HITS = []
+_TRIP_INSTALLED = []
 
 
 def _install_tripwire():
     import tradingenv.broker.rebalancing as _reb
     import tradingenv.transmitter as _tr
-    if getattr(_reb.datetime, "_tesim_trip", False):
+    if _TRIP_INSTALLED:
         return
+    _TRIP_INSTALLED.append(True)
 
     class _Transparent(type):
         # the stand-in must not change what the patched modules' own isinstance(x, datetime) tests see
@@ -148,8 +150,10 @@ def _install_tripwire():
             TRIPWIRE_HITS.append("utcnow")
             return datetime(1999, 9, 9)
 
-    _reb.datetime = TripDatetime
-    _tr.datetime = TripDatetime
+    for m in (_reb, _tr):
+        # only where the module binds the class under this name (another import style: no tripwire there)
+        if getattr(m, "datetime", None) is datetime:
+            m.datetime = TripDatetime
 
 
 @contextlib.contextmanager
@@ -193,6 +197,15 @@ def load_prop(prop):
 
 def _alarm_handler(signum, frame):
     raise RunTimeout("run exceeded its time limit")
+
+
+def exc_name(e):
+    """Class name under which an exception is recorded and judged: a class the library derives from
+    EndOfEpisodeError or from a builtin counts as that ancestor (what `except`/`isinstance` would see)."""
+    for k in type(e).__mro__:
+        if not (k.__module__ or "").startswith("tradingenv") or k.__name__ == "EndOfEpisodeError":
+            return k.__name__
+    return type(e).__name__
 
 
 def library_site(exc):
@@ -245,7 +258,7 @@ def _chunk_worker(args):
         try:
             scenario, out = run_one(mod, seed, i)
         except Exception as e:  # harness problem (incl. timeouts)
-            agg["errors"].append((i, "{}: {}".format(type(e).__name__, e), traceback.format_exc()[-1500:]))
+            agg["errors"].append((i, "{}: {}".format(exc_name(e), e), traceback.format_exc()[-1500:]))
             continue
         agg["n"] += 1
         agg["probes"].update(out.get("probes", {}))
